@@ -18,7 +18,7 @@ DOC = {
  "C02.R2": "hand-back: every SendErr built in the send bodies / their error closures carries the message parameter or the payload of the channel's SendError (through from_boxed / serialized_msg)",
  "C02.R3": "the enqueue is unique per send body, not in a cycle, and the Ok(()) return is reachable only through it",
  "C02.R4": "= C07.R5: status gate < admission < enqueue, ticket alive across the enqueue",
- "C02.R5": "the TypeId comparison guards delegation in the checked entry; the unchecked send has exactly one caller (that entry); public send paths reach the channel through it",
+ "C02.R5": "the TypeId comparison guards delegation in the checked entry (local ids); for non-local ids the cluster box_message boxes in-process only on the is_local() edge (anything else is serialized or refused); the unchecked send has exactly one caller (that entry); public send paths reach the channel through it",
  "C02.R7": "= C07.R3 + C07.R8 (a cell drained while it starts up still starts -- start gate and link() admit Draining -- so the messages accepted before the drain are handled, not dropped with an abandoned mailbox): `Ok => handled unless the actor exits first` needs the admission CAS to re-test the closed bit on every retry (no admission after the drain marker)",
  "C02.R8": "= C19.R5 (cluster builds): serialized payloads are decoded under catch_unwind in both runtimes and an undecodable one is dropped, never propagated into the actor",
  "C02.R6": "the message is taken by value and `Message` has no Clone supertrait: a send either enqueues the value or hands it back",
@@ -178,6 +178,19 @@ def r5(run, db):
         run.check(mism is not None and any(f.edge_dominates(mism, e) for e in errs), "mismatch->InvalidActorType", "a mismatch returns InvalidActorType", None, f.where())
         loc = [x for x in f.calls() if x.is_("ActorId::is_local")]
         run.check(len(loc) == 1, "local-only", "the check applies to local actors (remote proxies take serialized payloads)", None, f.where())
+    # the other half of `local-only`: for a non-local id the checked entry skips the TypeId test and relies on boxing to refuse a
+    # message that is not serialized -- so the default box_message may box in-process only for a local id
+    for bm in [f for f in db.crate_fns("ractor") if re.search(r"message::Message::box_message$", f.id)]:
+        if not [x for x in bm.calls() if x.is_("Message::serializable") or x.matches(r"Message::serializable$")]:
+            continue        # build without remote actors: one unconditional in-process boxing
+        run.saw(len(bm.blocks), bm)
+        boxes = [x for x in bm.calls() if x.matches(r"boxed::Box::<T>::new$")]
+        loc = [x for x in bm.calls() if x.is_("ActorId::is_local")]
+        run.anchor("in-process boxing in the cluster box_message", len(boxes), 1, bm.where())
+        for b in boxes:
+            good = any(true_edge(bm, l) and (bm.edge_dominates(true_edge(bm, l), b.site) or edge_guards(bm, true_edge(bm, l), b.site)) for l in loc)
+            run.check(good, "inprocess-boxing-only-for-local-id", "box_message boxes the value in-process only on the true edge of pid.is_local()",
+                      "box_message boxes a non-serializable message in-process also for a non-local id: the checked entry skips the TypeId test for such ids, so a wrongly typed send to a remote proxy returns Ok, the foreign value lands in its mailbox, the proxy fails on it and every message queued behind it is lost", b.where())
     # public paths go through the checked entry
     if chk:
         n = 0
